@@ -196,6 +196,23 @@ def derive_hints(p, alt=0):
     return out
 
 
+def wrapped_bodies(p):
+    """ids of the tasks whose body was started by the queued-task wrapper (site 12 = ts.task.body): j-th body point of a thread <-> its j-th 'b' event"""
+    out = []
+    per_thread = {}
+    for i, (t, code) in enumerate(p['steps']):
+        per_thread.setdefault(t, []).append(code // 64)
+    for t, sites in per_thread.items():
+        bs = [a for (tag, a, st) in p['results'].get(t, []) if tag == 1]
+        j = 0
+        for s_ in sites:
+            if s_ in BODY_SITES:
+                if j < len(bs) and s_ == 12:
+                    out.append(bs[j])
+                j += 1
+    return sorted(out)
+
+
 def skipped_dequeues(p):
     """number of general dequeues whose wrapper skipped the body (the task taken is not observable)"""
     n = 0
@@ -248,10 +265,10 @@ def ztrips(l):
 def case_term(c, p, alt=0):
     hints = derive_hints(p, alt)
     nthr = len(c['threads'])
-    return '(LC %s %d%%nat %s %s %s %s %s %d %d)' % (
+    return '(LC %s %d%%nat %s %s %s %s %s %d %d %s)' % (
         setup_coq(c, hints), c['budget'] + 1, dv.coq_list([str(x) for x in c['sched'][:c['budget']]]),
         ls_common.zpairs(p['steps']), dv.coq_list([ztrips(p['results'].get(t, [])) for t in range(nthr)]),
-        ztrips(p['sets']), dv.zlit(p['wr']), p['q'], p['status'])
+        ztrips(p['sets']), dv.zlit(p['wr']), p['q'], p['status'], dv.coq_list([str(k) for k in wrapped_bodies(p)]))
 
 
 # ------------------------------------------------------------------------------------------------ generators
@@ -387,6 +404,29 @@ def exc_barrier_probes():
                     while len(sched) < 120:
                         sched += [rr.randrange(0, 2)] * rr.randint(1, 9)
                 out.append({'budget': 120, 'nthr': 1, 'plf': 32, 'wr': 0, 'sets': [(conc, heavy, 4, -1, 0)], 'threads': threads, 'sched': sched[:120]})
+    return out
+
+
+def exc_after_cancel_probes():
+    """a queued task is in the middle of its body on a worker when the set is cancelled (cancel(), or the cascade from a cancelled parent), and
+    then throws: the set holds no exception yet, so this one must be captured and rethrown by the next wait()"""
+    import random
+    out = []
+    for conc, heavy in ((0, 0), (1, 0), (1, 1)):
+        for casc in (0, 1):
+            thrower = ('s', casc, 1, 0, [('s', casc, 1, 0, []), ('t',)])
+            t0 = [thrower, ('c', 0), ('w', casc)] + ([('w', 0)] if casc else [])
+            sets = [(conc, heavy, 4, -1, 0)] if not casc else [(1, 0, 4, -1, 0), (conc, heavy, 4, 0, 0)]
+            threads = [(0, 0, t0), (1, 0, [('k',)] * 3)]
+            for j in range(8):
+                rr = random.Random(9500 + 100 * conc + 10 * heavy + 1000 * casc + j)
+                if j < 4:      # directed: submit, the worker gets into the body, cancel, the worker throws, wait
+                    sched = [0] * (3 + j) + [1] * (4 + j) + [0] * 3 + [1] * 30 + [0] * 80
+                else:
+                    sched = []
+                    while len(sched) < 120:
+                        sched += [rr.randrange(0, 2)] * rr.randint(1, 7)
+                out.append({'budget': 120, 'nthr': 1, 'plf': 32, 'wr': 0, 'sets': sets, 'threads': threads, 'sched': sched[:120]})
     return out
 
 
